@@ -2,6 +2,7 @@ package props
 
 import (
 	"fmt"
+	"regexp"
 	"strings"
 	"testing"
 
@@ -92,41 +93,9 @@ var c05Scan = hx.Define("c05.scan", func(c *c05ScanCase, s *hx.Sub) *hx.Violatio
 // reference: does body B keep to itself? every {{ or {% opening in B is closed inside B,
 // B does not end in "{", and B contains no end tag of the enclosing block.
 func selfContained(b, endName string) bool {
-	if strings.HasSuffix(b, "{") {
-		return false
-	}
-	i := 0
-	for i+1 < len(b) {
-		switch b[i : i+2] {
-		case "{{":
-			j := strings.Index(b[i+2:], "}}")
-			if j < 0 {
-				return false
-			}
-			if strings.TrimSpace(strings.Trim(strings.TrimSpace(b[i+2:i+2+j]), "-")) == "" {
-				// "{{}}", "{{ }}", "{{\n}}": an object needs content; for an empty one the tokenizer
-				// looks further for a later }} (found by the length-8 enumeration) - keep clear of it
-				return false
-			}
-			i += 2 + j + 2
-		case "{%":
-			j := strings.Index(b[i+2:], "%}")
-			if j < 0 {
-				return false
-			}
-			inner := strings.TrimSpace(strings.Trim(strings.TrimSpace(b[i+2:i+2+j]), "-"))
-			if inner == endName || strings.HasPrefix(inner, endName+" ") || strings.HasPrefix(inner, endName+"\n") || strings.HasPrefix(inner, endName+"\t") || strings.HasPrefix(inner, endName+"-") {
-				return false
-			}
-			if inner == "" || strings.ContainsAny(inner[:1], "{}%\"- \n") {
-				return false // not a well-formed tag: the tokenizer's reading of it is its own business
-			}
-			i += 2 + j + 2
-		default:
-			i++
-		}
-	}
-	return true
+	// the body ends at the first end tag of its block, whatever else it contains; a body that holds
+	// such a tag is a shorter body followed by other text
+	return !regexp.MustCompile(`\{%-?\s*` + endName + `\s*-?%\}`).MatchString(b + "{% " + endName)
 }
 
 type c05BlockCase struct {
@@ -218,6 +187,10 @@ var c05TextForms = [][2]string{
 	{"[{% raw %}§{% endraw -%}  {%- assign q = 1 %}]", "[§]"},
 	{"[{% assign q = 1 -%} \n {%- assign r = 2 %}§]", "[§]"},
 	{"§{% if true -%} {%- endif %}", "§"},
+	// a raw body is emitted exactly as written: hyphens of its neighbours face the raw / endraw tags, not text
+	{"[{{ x -}}{% raw %}§{% endraw %}{{- x }}]", "[X§X]"},
+	{"{% assign q = 1 -%}{% raw %}§{% endraw %}{%- assign r = 1 %}|", "§|"},
+	{"[{% if true -%}{% raw %}§{% endraw %}{%- endif %}]", "[§]"},
 }
 
 var c05Edge = hx.Define("c05.value-beside-hyphen", func(c *c05EdgeCase, s *hx.Sub) *hx.Violation {
@@ -330,7 +303,7 @@ func TestC05(t *testing.T) {
 		}
 	})
 
-	blk := c05Block.On(col, "bounded-exhaustive: X{% raw %}B{% endraw %}Y and X{% comment %}B{% endcomment %}Y for every body B of length 0..5 over the same alphabet that keeps to itself (every {{ or {% opening in B is closed inside B, B does not end in {, no end tag of the block inside: decided by a reference scan, independent of the implementation) with X, Y from a small set; then rapid: bodies built from tag-like text, failing constructs (unknown tags and filters, syntax errors, division by zero), multi-line and non-ASCII text. Oracle: raw => X+B+Y; comment => X+Y and no error. Excluded bodies are counted. Non-trivial: the body contains a delimiter character; distinct by template", false)
+	blk := c05Block.On(col, "bounded-exhaustive: X{% raw %}B{% endraw %}Y and X{% comment %}B{% endcomment %}Y for every body B of length 0..5 over the same alphabet that does not contain the block's own end tag (unclosed {{ and {% openers, empty objects, malformed tags and all) with X, Y from a small set; then rapid: bodies built from tag-like text, failing constructs (unknown tags and filters, syntax errors, division by zero), multi-line and non-ASCII text. Oracle: raw => X+B+Y; comment => X+Y and no error. Excluded bodies are counted. Non-trivial: the body contains a delimiter character; distinct by template", false)
 	xs := []string{"", "a", " \n", "}}", "\ufeff"}
 	var bodies func(cur []byte, n int)
 	bodies = func(cur []byte, n int) {
